@@ -462,7 +462,7 @@ var keyKinds = []keyKind{
 func (f *walletFam) Gen(r *hx.Run) {
 	r.Rule("wallet histories on a temp file: every key kind (ECDSA P-224/256/384/521/secp256k1, SM2, Ed25519) created with NewAccount and imported (aes-256-gcm and legacy aes-256-ctr protected keys), default and low-security scrypt parameters, passwords empty/1 byte/unicode/invalid UTF-8/1500 bytes, labels empty/unicode/JSON-special/long, duplicate labels and duplicate addresses, wrong-password reads, delete/default/label/password/scheme changes, reload after every few ops, audit of the property on a re-opened file; distinct non-trivial = distinct (key kind, protection mode, scrypt parameters, op kinds used) of cases with at least one reload")
 	g := r.Rng
-	nCases := r.Pick(14, 300)
+	nCases := r.Pick(14, 220)
 	pws := func() []byte {
 		switch g.Intn(9) {
 		case 0:
